@@ -7,73 +7,6 @@ Import ListNotations.
 Open Scope N_scope.
 Open Scope bool_scope.
 
-(* ------------------------------------------------------------------ xattr merging is idempotent *)
-Definition xfound (k v : list N) (R : list (list N * list N)) : Prop :=
-  exists P Q, R = P ++ (k, v) :: Q /\ Forall (fun a => cmp_bytes (fst a) k = Lt) P.
-
-Lemma xcb_eq a b : cmp_bytes a b = Eq <-> a = b.
-Proof. rewrite <- cmpb_is_cmp_bytes. apply cmpb_eq. Qed.
-Lemma xcb_trans a b c : cmp_bytes a b = Lt -> cmp_bytes b c = Lt -> cmp_bytes a c = Lt.
-Proof. rewrite <- !cmpb_is_cmp_bytes. apply cmpb_trans. Qed.
-
-Lemma xattr_set_past k v P Q : Forall (fun a => cmp_bytes (fst a) k = Lt) P ->
-  xattr_set k v (P ++ Q) = P ++ xattr_set k v Q.
-Proof.
-  induction P as [|[k' v'] P IH]; intro H; auto. inversion H as [|? ? Hk Hr]; subst. simpl in Hk.
-  simpl. rewrite xcb_opp, Hk. simpl. rewrite IH; auto.
-Qed.
-
-Lemma xfound_set k v R : xfound k v (xattr_set k v R).
-Proof.
-  induction R as [|[k' v'] R IH]; simpl.
-  - exists [], []. split; auto.
-  - destruct (cmp_bytes k k') eqn:E.
-    + exists [], R. split; auto.
-    + exists [], ((k', v') :: R). split; auto.
-    + destruct IH as (P & Q & E1 & E2). exists ((k', v') :: P), Q. rewrite E1. split; auto.
-      constructor; auto. simpl. rewrite xcb_opp, E. auto.
-Qed.
-
-Lemma xfound_keep k v k' v' R : xfound k v R -> cmp_bytes k k' = Lt -> xfound k v (xattr_set k' v' R).
-Proof.
-  intros (P & Q & -> & HP) Hlt. exists P, (xattr_set k' v' Q). split; auto.
-  rewrite xattr_set_past.
-  - simpl. rewrite xcb_opp, Hlt. auto.
-  - eapply Forall_impl; [|exact HP]. intros a Ha. simpl in Ha. apply (xcb_trans _ k _); auto.
-Qed.
-
-Lemma xfound_fix k v R : xfound k v R -> xattr_set k v R = R.
-Proof.
-  intros (P & Q & -> & HP). rewrite xattr_set_past by auto. simpl.
-  assert (cmp_bytes k k = Eq) as -> by (apply xcb_eq; auto). auto.
-Qed.
-
-Lemma fold_keep k v l : Forall (fun b => cmp_bytes k (fst b) = Lt) l ->
-  forall R, xfound k v R -> xfound k v (fold_left (fun l0 kv => xattr_set (fst kv) (snd kv) l0) l R).
-Proof.
-  induction l as [|[k2 v2] l IH]; intros H R HR; simpl; auto.
-  inversion H as [|? ? H1 H2]; subst. simpl in H1. apply IH; auto. apply xfound_keep; auto.
-Qed.
-
-Lemma merge_found l : forall R, xsorted l -> (forall kv, In kv l -> xfound (fst kv) (snd kv) (merge_xattrs l R)).
-Proof.
-  unfold merge_xattrs. induction l as [|[k v] l IH]; intros R Hs kv Hin; [destruct Hin|].
-  destruct Hs as [Hh Hs]. simpl fold_left. destruct Hin as [<-|Hin].
-  - simpl. apply fold_keep; auto. apply xfound_set.
-  - apply IH; auto.
-Qed.
-
-Lemma merge_fix l R : (forall kv, In kv l -> xfound (fst kv) (snd kv) R) -> merge_xattrs l R = R.
-Proof.
-  unfold merge_xattrs. induction l as [|[k v] l IH]; intro H; simpl; auto.
-  rewrite (xfound_fix k v R) by (apply (H (k, v)); left; auto). apply IH. intros kv Hin. apply H. right; auto.
-Qed.
-
-Lemma merge_idem l R : xsorted l -> merge_xattrs l (merge_xattrs l R) = merge_xattrs l R.
-Proof. intro Hs. apply merge_fix. apply merge_found; auto. Qed.
-Lemma merge_self l : xsorted l -> merge_xattrs l l = l.
-Proof. intro Hs. rewrite <- (merge_nil l Hs) at 2 3. apply merge_idem; auto. Qed.
-
 (* ------------------------------------------------------------------ copying over a copy *)
 Definition feq (a b : dent) : Prop :=
   d_mode a = d_mode b /\ d_uid a = d_uid b /\ d_gid a = d_gid b /\ d_mtime a = d_mtime b /\
@@ -236,7 +169,6 @@ Section Idem.
   Variable o : copts.
   Variable sroot : snode.
   Hypothesis Hsrc : wf_src sroot.
-  Hypothesis Hnl : no_link_groups sroot.
   Notation multi := (multi_of sroot).
 
   Lemma touch_d P V p : same_dF (touch o P V p) (V p).
@@ -301,7 +233,7 @@ Section IdemThm.
   Variable o : copts.
   Variable sroot : snode.
   Hypothesis Hsrc : wf_src sroot.
-  Hypothesis Hnl : no_link_groups sroot.
+  Hypothesis Hlc : links_consistent sroot.
   Notation multi := (multi_of sroot).
 
   Theorem copy_idempotent_partial_proof fs src dst r1 st1 r2 ms sn L :
@@ -322,21 +254,21 @@ Section IdemThm.
   Proof.
     intros Hw Hfs Eo1 Ec1 Hp Hs HL1 Hclear Eo2 HL2.
     (* first run *)
-    pose proof (top o sroot Hsrc Hnl fs src dst Hfs) as T1. rewrite Eo1 in T1.
+    destruct (top o sroot Hsrc Hlc (or_intror Hw) fs src dst Hfs) as (sdof1 & T1). rewrite Eo1 in T1.
     destruct T1 as (st1' & Ec1' & I1 & S1 & _). rewrite Ec1 in Ec1'. inversion Ec1'; subst st1'. clear Ec1'.
     destruct (inv_init o fs Hfs) as (_ & Hroot0 & _).
-    destruct (overlay_all_single o sroot Hsrc Hnl _ src dst r1 Hw Hroot0 Eo1)
+    destruct (overlay_all_single o sroot Hsrc _ src dst r1 Hw Hroot0 Eo1)
       as (X1 & eps & ms1 & sn1 & D & V1 & B1 & B2 & B3 & B4 & B5 & B6 & B7 & B8 & B9 & B10 & B11 & B12).
     rewrite Hp in B2. inversion B2; subst ms1. rewrite Hs in B3. inversion B3; subst sn1.
     rewrite HL1 in B10. inversion B10 as [HLa]. rewrite <- HLa in *. clear HLa B10.
     set (target := if o_dircontents o && is_dir (sdent sn) && negb (x_exists (X1 D)) then L else parent L) in *.
     (* second run *)
     set (fs1 := c_fs st1) in *.
-    assert (Hfs1 : wf_fs fs1) by (eapply copy_preserves_wf_proof; eauto).
-    pose proof (top o sroot Hsrc Hnl fs1 src dst Hfs1) as T2. rewrite Eo2 in T2.
+    assert (Hfs1 : wf_fs fs1) by (eapply (copy_preserves_wf_proof o sroot Hsrc Hlc (or_intror Hw)); eauto).
+    destruct (top o sroot Hsrc Hlc (or_intror Hw) fs1 src dst Hfs1) as (sdof2 & T2). rewrite Eo2 in T2.
     destruct T2 as (st2 & Ec2 & I2 & S2 & _). exists st2. split; auto.
     destruct (inv_init o fs1 Hfs1) as (I0' & Hroot0' & _).
-    destruct (overlay_all_single o sroot Hsrc Hnl _ src dst r2 Hw Hroot0' Eo2)
+    destruct (overlay_all_single o sroot Hsrc _ src dst r2 Hw Hroot0' Eo2)
       as (X1' & eps' & ms2 & sn2 & D' & V1' & C1 & C2 & C3 & C4 & C5 & C6 & C7 & C8 & C9 & C10 & C11 & C12).
     rewrite Hp in C2. inversion C2; subst ms2. rewrite Hs in C3. inversion C3; subst sn2.
     rewrite HL2 in C10. inversion C10 as [HLb]. rewrite <- HLb in *. clear HLb C10.
